@@ -1,6 +1,8 @@
 package core
 
 import (
+	"fmt"
+	"os"
 	"go/ast"
 	"go/token"
 	"go/types"
@@ -704,6 +706,11 @@ func (f *Flow) EveryPathPasses(n ast.Node, pred func(ast.Node) bool) bool {
 		}
 		seen[b] = true
 		if b == l.b {
+			if os.Getenv("GOBLCHECK_DEBUG_PATH") != "" {
+				for sb := range seen {
+					fmt.Fprintf(os.Stderr, "  reached block %d %s nodes=%d\n", sb.Index, sb.String(), len(sb.Nodes))
+				}
+			}
 			return false
 		}
 		work = append(work, b.Succs...)
